@@ -9,7 +9,7 @@ def sh(cmd, **kw):
     return subprocess.run(cmd, shell=True, text=True, capture_output=True, **kw)
 
 def main():
-    dirs = [d.rstrip('/') for d in sys.argv[1:] if not d.startswith('--')]
+    dirs = [d.rstrip('/') for i, d in enumerate(sys.argv[1:], 1) if not d.startswith('--') and sys.argv[i - 1] != '--keep']
     tier = 'thorough' if '--thorough' in sys.argv else 'quick'
     scratch = tempfile.mkdtemp(prefix="dltseed-", dir="/tmp")
     try:
@@ -40,6 +40,10 @@ def main():
             r = sh(f"{scratch}/target/release/dltsim check {prop} {tier}", env=env)
             lines = [l for l in r.stdout.splitlines() if l.startswith(("VIOLATION", "  clause", "  detail", "[C", "HARNESS"))]
             print("\n".join(lines[:10]))
+            if '--keep' in sys.argv:
+                keep = sys.argv[sys.argv.index('--keep') + 1]
+                shutil.rmtree(f"{keep}/{os.path.basename(d)}", ignore_errors=True)
+                shutil.copytree(f"{scratch}/vd", f"{keep}/{os.path.basename(d)}")
             print(f"RESULT {os.path.basename(d)} {prop} {'CAUGHT' if r.returncode == 1 else 'MISSED (exit %d)' % r.returncode}")
             sys.stdout.flush()
     finally:
